@@ -48,8 +48,11 @@ def write_obs_file(cases, path, fields=("pid", "prog", "obs")):
     return path
 
 
-def SPEC_FILES():
-    return sorted(os.path.join(SPEC, f) for f in os.listdir(SPEC) if f.endswith(".tla"))
+def SPEC_FILES(names=None):
+    """Specification modules a pipeline depends on (all of them when names is None)."""
+    if names is None:
+        return sorted(os.path.join(SPEC, f) for f in os.listdir(SPEC) if f.endswith(".tla"))
+    return [os.path.join(SPEC, n + ".tla") for n in names]
 
 
 def HARNESS_FILES():
